@@ -47,6 +47,7 @@ func init() {
 		fn := p.Func(os.Getenv("DBG_FN"))
 		pr := newProverP(p, fn, 0)
 		pr.constBounds = true
+		pr.classV = os.Getenv("ACRAVERIFY_CLASSV") != ""
 		traceProver = false
 		vs := pr.CheckSinks(nil)
 		for _, v := range vs {
